@@ -43,13 +43,15 @@ type c20World struct {
 	fix     c20Fix
 	res     *lib.Result
 	blocked map[string]bool // endpoint|mutation-key of confirmed single-mutation crashers (not re-sent: each costs a restart)
+	wedged  map[string]bool // endpoint|auth classes that wedged once: their remaining framing cases are skipped (a wedge costs a whole watchdog)
+	wedges  int
 	crashes map[string]int
 	sent    int
 	skipped int
 }
 
 func c20Start(a lib.Args, res *lib.Result, id int) (*c20World, error) {
-	w := &c20World{id: id, a: a, res: res, blocked: map[string]bool{}, crashes: map[string]int{}}
+	w := &c20World{id: id, a: a, res: res, blocked: map[string]bool{}, wedged: map[string]bool{}, crashes: map[string]int{}}
 	cfg, err := mustStorage(a, fmt.Sprintf("c20-%d", id), true, false, nil)
 	if err != nil {
 		return nil, err
@@ -74,6 +76,10 @@ func c20Start(a lib.Args, res *lib.Result, id int) (*c20World, error) {
 		g.Kill()
 		return nil, err
 	}
+	if err := w.ensureStates(); err != nil {
+		g.Kill()
+		return nil, err
+	}
 	return w, nil
 }
 
@@ -95,6 +101,118 @@ func (w *c20World) checkIdle(when string) error {
 		What:  "the gateway process exited while the harness was sending its own VALID fixture requests (" + reason + " at " + where + "), " + when,
 		Input: map[string]interface{}{"endpoint": "fixture-setup", "class": "valid", "note": "re-run ./check C20: the fixture sequence is deterministic"}, Impl: "child exit: " + reason + " @ " + site, Model: "every request is answered and the process keeps serving"})
 	return w.g.Restart()
+}
+
+// ---------------------------------------------------------------- the versioned / locked state world
+
+func (w *c20World) setVersioning(bucket, status string) {
+	w.do(gw.Req{Method: "PUT", Path: "/" + bucket, Query: "versioning", Body: []byte("<VersioningConfiguration><Status>" + status + "</Status></VersioningConfiguration>")})
+}
+
+// rebuildKey puts one key of the state world (back) into its state:
+//
+//	fzv (versioning Enabled):  multi = three versions; dm = two versions, current a delete marker;
+//	                           nullcur = an id version archived, current the null version (written while Suspended);
+//	                           vdir/ = a directory object with a child
+//	fzs (versioning Suspended): s_multi = two id versions, then a null version written after suspension;
+//	                           s_dm = two id versions, then a delete while suspended (null delete marker)
+//	fzl (object lock):          l_hold = under legal hold; l_ret = GOVERNANCE retention until 2036
+func (w *c20World) rebuildKey(bucket, key string) {
+	p := "/" + bucket + "/" + key
+	put := func(n int) { w.do(gw.Req{Method: "PUT", Path: p, Body: c20Data(n)}) }
+	switch bucket + "/" + key {
+	case "fzv/multi":
+		put(3)
+		put(4)
+		put(5)
+	case "fzv/dm":
+		put(3)
+		put(4)
+		w.do(gw.Req{Method: "DELETE", Path: p})
+	case "fzv/nullcur":
+		put(3)
+		w.setVersioning("fzv", "Suspended")
+		put(4)
+		w.setVersioning("fzv", "Enabled")
+	case "fzv/vdir/":
+		w.do(gw.Req{Method: "PUT", Path: p})
+		w.do(gw.Req{Method: "PUT", Path: p + "x", Body: c20Data(2)})
+	case "fzs/s_multi":
+		w.setVersioning("fzs", "Enabled")
+		put(3)
+		put(4)
+		w.setVersioning("fzs", "Suspended")
+		put(5)
+	case "fzs/s_dm":
+		w.setVersioning("fzs", "Enabled")
+		put(3)
+		put(4)
+		w.setVersioning("fzs", "Suspended")
+		w.do(gw.Req{Method: "DELETE", Path: p})
+	case "fzl/l_hold":
+		put(3)
+		w.do(gw.Req{Method: "PUT", Path: p, Query: "legal-hold", Body: []byte("<LegalHold><Status>ON</Status></LegalHold>")})
+	case "fzl/l_ret":
+		put(3)
+		w.do(gw.Req{Method: "PUT", Path: p, Query: "retention", Body: []byte(c20Bodies["retention"])})
+	case "fzb/dir/":
+		w.do(gw.Req{Method: "PUT", Path: p})
+	}
+	w.refreshVars(bucket, key)
+}
+
+var c20VersionEntryRe = regexp.MustCompile(`(?s)<(Version|DeleteMarker)>(.*?)</(?:Version|DeleteMarker)>`)
+
+// refreshVars reads the version ids of one key from ListObjectVersions: {key.cur} (latest entry),
+// {key.old} (a version that is not the latest), {key.marker} (a delete marker).
+func (w *c20World) refreshVars(bucket, key string) {
+	if w.fix.Vars == nil {
+		w.fix.Vars = map[string]string{}
+	}
+	name := strings.TrimSuffix(key, "/")
+	r := w.do(gw.Req{Method: "GET", Path: "/" + bucket, Query: "versions&max-keys=1000&prefix=" + gw.EncodeQueryValue(key)})
+	field := func(s, tag string) string {
+		if m := regexp.MustCompile("<" + tag + ">([^<]*)</" + tag + ">").FindStringSubmatch(s); m != nil {
+			return m[1]
+		}
+		return ""
+	}
+	delete(w.fix.Vars, "{"+name+".cur}")
+	delete(w.fix.Vars, "{"+name+".old}")
+	delete(w.fix.Vars, "{"+name+".marker}")
+	for _, m := range c20VersionEntryRe.FindAllStringSubmatch(string(r.Body), -1) {
+		if field(m[2], "Key") != key {
+			continue
+		}
+		id, latest := field(m[2], "VersionId"), field(m[2], "IsLatest") == "true"
+		if id == "" {
+			continue
+		}
+		switch {
+		case latest:
+			w.fix.Vars["{"+name+".cur}"] = id
+		case m[1] == "Version" && w.fix.Vars["{"+name+".old}"] == "":
+			w.fix.Vars["{"+name+".old}"] = id
+		}
+		if m[1] == "DeleteMarker" && (latest || w.fix.Vars["{"+name+".marker}"] == "") {
+			w.fix.Vars["{"+name+".marker}"] = id
+		}
+	}
+}
+
+// ensureStates builds the whole state world (first call) and refreshes the version ids.
+func (w *c20World) ensureStates() error {
+	w.do(gw.Req{Method: "PUT", Path: "/fzs"})
+	for _, sk := range c20StateKeys {
+		if sk.key == "nokey" || sk.key == "mp" {
+			continue
+		}
+		w.rebuildKey(sk.bucket, sk.key)
+		if err := w.checkIdle("state world: " + sk.bucket + "/" + sk.key); err != nil {
+			return err
+		}
+	}
+	return nil
 }
 
 // ensure (re)creates the fixture world; idempotent. Mutated requests delete and overwrite things, so
@@ -445,6 +563,15 @@ func (w *c20World) runOne(c c20Case) (c20Outcome, error) {
 	w.sent++
 	ex := gw.Exchange(addr, wire, b.Method, c20Watchdog, true)
 	out := c20Outcome{Built: b, Verdict: c20Judge(b, ex)}
+	if ex.TimedOut && w.g.Alive() {
+		// not answered within the watchdog: whatever the handler is doing (spinning, waiting), it keeps a
+		// worker and possibly a core: one deadline is all such a request may cost this run
+		w.wedges++
+		if err := w.g.Restart(); err != nil {
+			return out, err
+		}
+		return out, nil
+	}
 	alive := w.g.Alive()
 	if alive && !w.probe() {
 		// not answering other clients: dead in a moment, or wedged
@@ -558,7 +685,13 @@ func (w *c20World) handle(c c20Case, out c20Outcome) error {
 			case c.WireMut != "":
 				what = "chunk-framing"
 			}
-			sig = "memory-or-wedge:" + c.Endpoint + ":" + c.Auth + ":" + what
+			if strings.HasPrefix(c.WireMut, "cut:") {
+				what = strings.TrimPrefix(c.WireMut, "cut:")
+			}
+			sig = out.Verdict.Kind + ":" + c.Endpoint + ":" + c.Auth + ":" + what
+			if out.Verdict.Kind == "wedge" {
+				w.wedged[c.Endpoint+"|"+c.Auth] = true
+			}
 			for _, k := range c.keys() {
 				if strings.HasPrefix(k, "wire:") || strings.HasPrefix(k, "decl=") || len(c.keys()) == 1 {
 					w.blocked[c.Endpoint+"|"+k] = true
@@ -572,6 +705,13 @@ func (w *c20World) handle(c c20Case, out c20Outcome) error {
 }
 
 func (w *c20World) isBlocked(c c20Case) bool {
+	if c.WireMut != "" || c.DeclLen != nil {
+		// a class of framing cases that wedged once is not tried again in this run (each try costs a watchdog);
+		// after four wedges of any kind no further framing mutations are sent by this worker
+		if w.wedged[c.Endpoint+"|"+c.Auth] || w.wedges >= 4 {
+			return true
+		}
+	}
 	for _, k := range c.keys() {
 		if w.blocked[c.Endpoint+"|"+k] {
 			return true
@@ -598,6 +738,12 @@ func c20Corpus() []c20Case {
 		mk("CompleteMultipartUpload", "no-parts", c20Mut{K: "body", N: "root-only", V: []byte(`<CompleteMultipartUpload></CompleteMultipartUpload>`)}),
 		mk("CopyObject", "empty-source", c20Mut{K: "h", N: "x-amz-copy-source", V: []byte("/")}),
 		mk("GetObject", "path-no-slash", c20Mut{K: "path", V: []byte("fzb")}),
+		// seeded regressions the first version of the check missed
+		mk("HeadObjectPlain", "head-of-delete-marker", c20Mut{K: "path", V: []byte("/fzv/dm")}),
+		mk("HeadObjectPlain", "head-of-delete-marker-by-id", c20Mut{K: "path", V: []byte("/fzv/dm")}, c20Mut{K: "q+", N: "versionId", V: []byte("{dm.marker}")}),
+		{Endpoint: "PutObjectPlain", Class: "corpus:unsigned-stream-ends-before-final-chunk", Auth: "stream-unsigned-trailer", Cred: "root", Chunks: []int{5}, Trailer: "crc32", WireMut: "cut:crlf:2"},
+		{Endpoint: "PutObjectPlain", Class: "corpus:unsigned-stream-empty", Auth: "stream-unsigned-trailer", Cred: "root", Chunks: []int{5}, Trailer: "crc32", WireMut: "cut:crlf:0"},
+		{Endpoint: "UploadPartPlain", Class: "corpus:unsigned-stream-ends-after-data", Auth: "stream-unsigned-trailer", Cred: "root", Chunks: []int{5}, Trailer: "crc32", WireMut: "cut:crlf:4"},
 	}
 }
 
@@ -642,6 +788,7 @@ func c20E2E(a lib.Args, res *lib.Result) error {
 	var sysCases []c20Case
 	sysCases = append(sysCases, c20Corpus()...)
 	sysCases = append(sysCases, c20RawCases()...)
+	cuts := c20FramingCuts() // one (operation, mode) class stays on one worker: the class stops at its first wedge
 	sysCases = append(sysCases, c20Systematic(!a.Thorough())...)
 	for _, op := range c20Ops { // every valid template once, with every credential class
 		for _, cred := range []string{"root", "user", "anon", "badsecret"} {
@@ -706,7 +853,16 @@ func c20E2E(a lib.Args, res *lib.Result) error {
 					return
 				}
 			}
-			for n < (len(sysCases)+random)/workers {
+			for _, c := range cuts {
+				var h uint32
+				for _, ch := range c.Endpoint + c.Auth {
+					h = h*31 + uint32(ch)
+				}
+				if int(h%uint32(workers)) == wi && !step(c) {
+					return
+				}
+			}
+			for n < (len(sysCases)+len(cuts)+random)/workers {
 				if !step(c20Mutate(r, c20Ops[r.Intn(len(c20Ops))])) {
 					return
 				}
@@ -729,7 +885,42 @@ func c20E2E(a lib.Args, res *lib.Result) error {
 		cs = append(cs, fmt.Sprintf("%s×%d", k, v))
 	}
 	sort.Strings(cs)
-	res.Note("e2e: %d requests sent over %d child gateways (%d generated cases skipped because their single mutation is a confirmed crasher of the same endpoint); %d operations × {root, user, anonymous, bad credentials, signature defects, presigned, streaming modes}; child exits: %v",
+	res.Note("e2e: %d requests sent over %d child gateways (%d generated cases skipped: single mutation already confirmed as a crasher of the same endpoint, or framing class that already wedged once); %d operations × {root, user, anonymous, bad credentials, signature defects, presigned, streaming modes}; child exits: %v",
 		sent, workers, skipped, len(c20Ops), cs)
 	return firstErr
+}
+
+// c20States: every object-level operation on every key state of the versioned / locked world (several
+// versions, current = delete marker, null version current with id versions archived, versioning
+// Suspended, legal hold, retention, in-progress multipart upload, directory object), with and without
+// a version id (current, older, delete marker, null, garbage, an id of another key).
+func c20States(a lib.Args, res *lib.Result) error {
+	if a.ReplayInput() != nil {
+		return nil // a state case replays through c20E2E (same case format, the state world is built by c20Start)
+	}
+	c20LoadInventory(a)
+	w, err := c20Start(a, res, 80)
+	if err != nil {
+		return err
+	}
+	defer func() { w.g.Kill() }()
+	cases, destructive := c20StateMatrix()
+	for i, c := range cases {
+		out, err := w.runOne(c)
+		if err == nil {
+			err = w.handle(c, out)
+		}
+		if err != nil {
+			return err
+		}
+		if destructive[i] || out.Crashed {
+			// put the key back into its state
+			p := strings.SplitN(strings.TrimPrefix(c.Class, "state:"), "/", 2)
+			if len(p) == 2 && p[1] != "nokey" && p[1] != "mp" {
+				w.rebuildKey(p[0], p[1])
+			}
+		}
+	}
+	res.Note("state matrix: %d requests: %d key states × 14 object-level operations × 7 version-id choices", len(cases), len(c20StateKeys))
+	return nil
 }
